@@ -59,6 +59,7 @@ def obligations(tier):
         ("layout_next_token::implicit_in", "implicit `in`: the binding's context is popped, `in` is emitted at the token that ended the binding, the body block is opened at the location of the binding with emit_semi = false, the enclosing block's separator flag is cleared, an enclosing rec marker is popped, the token is queued again followed by an OpenBlock"),
         ("layout_next_token::top_level_block", "first token of the input: an implicit block at that token's position is opened (context pushed, OpenBlock emitted in front of the token, token queued again)"),
         ("layout_next_token::close_block", "a CloseBlock closing the popped block context is passed on unchanged and clears the separator flag of the enclosing block"),
+        ("layout_next_token::implicit_block_close", "a closing token meeting an open implicit block: a CloseBlock is emitted at its position, the token is queued again, the context stack is untouched"),
         ("layout_next_token::explicit_in", "explicit `in` closing a let/type/rec context: the body block is opened at the location of the ENCLOSING context with emit_semi = false, the enclosing block's separator flag is cleared, an enclosing rec marker is popped, an OpenBlock token with the span of `in` is queued and `in` is passed on"),
     ]]
     out += [dict(engine="verus", unit="shrink", function="grammar::BlockExpr::fold_step", name="C08/parser/block_fold_step", source="parser/src/grammar.lalrpop::BlockExpr (the fold closure of the semantic action)",
